@@ -30,10 +30,17 @@ package rfc4757
 //@   pure
 //@   trusted_frame returned slices are not tracked as fresh; in-place append into spare capacity cannot be excluded
 //@   ensures len(r) == 16
+//@   ensures bytes(r) == hmac(fid.crypto.md5.New, bytes(key), bytes(data))
 //@ func crypto/rfc4757.UsageToMSMsgType(usage) (r)
 //@   pure
 //@   trusted_frame returned slices are not tracked as fresh; in-place append into spare capacity cannot be excluded
-//@   ensures len(r) == 4
+//@   ensures len(r) == 4 && fresh(r) && cap(r) == 4
+//@   ensures bytes(r) == seqle32(ms_usage(usage))
+//@ func crypto/rfc4757.Checksum(key, usage, data) (r, err)
+//@   pure
+//@   trusted_frame returned slices are not tracked as fresh; in-place append into spare capacity cannot be excluded
+//@   ensures err == nil ==> len(r) == 16
+//@   ensures err == nil ==> bytes(r) == rc4_cksum(bytes(key), usage, bytes(data))
 //@ func crypto/rfc4757.VerifyIntegrity(key, pt, data, e) (ok)
 //@   pure
 //@   trusted_frame returned slices are not tracked as fresh; in-place append into spare capacity cannot be excluded
